@@ -41,6 +41,7 @@ def smap_rule(chk: Check, ctx: Any, rule: str) -> None:
         chk.unknown(rule, "smap:methods", smc.mod, "SourceMap.serialize/deserialize/rewrite_offsets/__eq__ not found")
         return
     maps: list[tuple[str, Any]] = []
+    factories: dict[str, Any] = {}
     try:
         c = P.compile_exps(MAP_MAIN, "/proj/main.exps", MAP_PROJECT)
         maps.append(("macro-project", c.attrs["source_map"]))
@@ -58,9 +59,13 @@ def smap_rule(chk: Check, ctx: Any, rule: str) -> None:
                      [])
         maps.append(("hand-made-from-offset-0", hand))
         # maps in which one of the tables is empty: only macro entries (routines that consist of macro calls), only marks
-        c3 = P.compile_exps("macro say($t) {\n    s($t);\n    t2(Position<'q', 2, 3>);\n}\nmacro twice($u) { ~say($u); ~say('again'); }\n"
-                            "def 0 { ~say('first'); ~twice('hero'); }\ndef 1 { ~say('last'); }\n")
+        C3 = ("macro say($t) {\n    s($t);\n    if ($A == 1 || $B == 2) { t2(Position<'q', 2, 3>); } elseif ($C == 3 || $D == 4) { t3(); }\n}\n"
+              "macro twice($u) { ~say($u); ~say('again'); }\ndef 0 { ~say('first'); ~twice('hero'); }\ndef 1 { ~say('last'); }\n")
+        c3 = P.compile_exps(C3)
         maps.append(("only-macro-entries", c3.attrs["source_map"]))
+        # the same maps as the compiler hands them out (not read back from text): entries may be shared objects there
+        factories["only-macro-entries"] = lambda: P.compile_exps(C3).attrs["source_map"]
+        factories["macro-project"] = lambda: P.compile_exps(MAP_MAIN, "/proj/main.exps", MAP_PROJECT).attrs["source_map"]
         only_m = I.new(smc, {}, [], {3: mk(None, "m", 1, 2, (None, 5, 6), 5, {"$a": 1}), 4: mk(None, "m", 2, 2, None, 5, {"$a": 1}), 7: mk("x.exps", "k", 3, 0, (None, 6, 1), 9, {})}, [])
         maps.append(("hand-made-only-macro-entries", only_m))
     except (PyExc, Unsupported, AnalysisError) as e:
@@ -116,11 +121,15 @@ def smap_rule(chk: Check, ctx: Any, rule: str) -> None:
         mappings["drop-return-ops, second half of the keys inserted first"] = {o: dro[o] for o in universe[half:] + universe[:half] if o in dro}
         if rets:
             mappings["return-op-to-zero"] = {o: (0 if o == rets[0] else i + 1) for i, o in enumerate(universe)}
-        for mname, mp in mappings.items():
-            key = f"smap:{name}:rewrite:{mname}"
+        runs = [(mname, mp, False) for mname, mp in mappings.items()]
+        if name in factories:
+            runs += [(mname, mp, True) for mname, mp in mappings.items() if mname in ("renumber", "drop-every-third", "drop-return-ops", "reverse")]
+            runs.append(("one-based-gap-closing", {o: i + 1 for i, o in enumerate(universe)}, True))
+        for mname, mp, direct in runs:
+            key = f"smap:{name}:rewrite:{mname}" + (":map-of-the-compiler" if direct else "")
             n += 1
             try:
-                fresh = I.call_func(des, [ClassVal(smc), text], {})
+                fresh = factories[name]() if direct else I.call_func(des, [ClassVal(smc), text], {})
                 before_d = dict(fresh.attrs["_mappings"])
                 before_m = dict(fresh.attrs["_mappings_macros"])
                 before_ret = {k: e.attrs.get("return_addr") for k, e in before_m.items()}
@@ -150,6 +159,10 @@ def smap_rule(chk: Check, ctx: Any, rule: str) -> None:
                             break
                 if (_dump(I, fresh.attrs["_position_marks"]), _dump(I, fresh.attrs["_position_marks_macro"])) != before_marks:
                     problems.append("position marks changed")
+                reread = I.call_func(des, [ClassVal(smc), text], {})
+                if reread is fresh or _dump(I, reread) != _dump(I, m):
+                    problems.append("reading the original text once more, after a map read from it was rewritten, does not give the original map again "
+                                    "(the reader hands out an object it handed out before)")
                 again = I.call_func(des, [ClassVal(smc), I.call_func(ser, [fresh], {})], {})
                 if _dump(I, {k: v for k, v in again.attrs.items() if k.startswith("_mappings") or k.startswith("_position")}) != \
                         _dump(I, {k: v for k, v in fresh.attrs.items() if k.startswith("_mappings") or k.startswith("_position")}):
